@@ -115,17 +115,7 @@ spec fn outcomes(cs: Seq<KeyedShardCollection>, q: Seq<MerkleHash>) -> Seq<Outco
 }
 spec fn is_miss(o: Outcome) -> bool { o is None || o == Some::<Result<Option<(usize, FileDataSequenceEntry)>>>(Ok(None)) }
 
-// registration invariant of a collection (established by `register_shards`, not proved here): every table entry names a
-// shard of THIS collection, that shard's footer key is the collection's key, and the position is one the shard's own
-// chunk lookup table may name (U-SHQ `valid_pos`)
-spec fn coll_wf(c: KeyedShardCollection) -> bool {
-    forall|k: u64| c.chunk_lookup@.contains_key(k) ==> {
-        let e = #[trigger] c.chunk_lookup@[k];
-        &&& (e.shard_index as int) < c.shard_list@.len()
-        &&& c.shard_list@[e.shard_index as int].shard.metadata.chunk_hash_hmac_key == c.hmac_key
-        &&& direct_pre(file_bytes(*c.shard_list@[e.shard_index as int]), c.shard_list@[e.shard_index as int].shard, e.cas_start_index, e.cas_chunk_offset as u32)
-    }
-}
+//@ include prelude/sfmq_vocab.rs
 // C05 for an answer taken from collection c: truthful about a block of the named shard's file, compared under c's key
 spec fn disk_truthful(c: KeyedShardCollection, q: Seq<MerkleHash>, n: int, fse: FileDataSequenceEntry) -> bool {
     let s = cand_shard(c, q[0]); let e = cand(c, q[0]);
@@ -140,7 +130,7 @@ impl ShardFileManager {
     spec fn colls(&self) -> Seq<KeyedShardCollection> { self.shard_bookkeeper.inner.shard_collections@ }
     spec fn wf(&self) -> bool {
         &&& ims_wf(self.mem())
-        &&& forall|i: int| 0 <= i < self.colls().len() ==> coll_wf(#[trigger] self.colls()[i])
+        &&& colls_wf(self.colls())
     }
 
 //@ extract mdb_shard/src/shard_file_manager.rs in `impl ShardFileManager` fn chunk_hash_dedup_query
